@@ -150,7 +150,7 @@ def run(ck):
         norders = 2
     else:
         sel = corp
-        norders = 6
+        norders = 4
     parts = [('corpus', cases_for(sel, ['kekule', 'thiele'], STYLES, ck.seed, norders)),
              ('exotic', cases_for(sorted(set(EXOTIC)), ['asis', 'kekule', 'thiele'], STYLES, ck.seed, 4 if ck.quick else 12)),
              ('ring-double-bonds', cases_for(RINGDB, ['kekule'], ['r', 'ar', 'mr', 'hr', '', 'a'], ck.seed, 10 if ck.quick else 60)),
@@ -160,14 +160,17 @@ def run(ck):
         cases = ck.select(name, cases)
         if not cases:
             continue
-        recs = vlib.pmap('checks.c02', 'observe', cases)
-        keep = [(c, r) for c, r in zip(cases, recs) if 'skip' not in r]
-        ck.ood('unparsable-or-unkekulisable-source', len(cases) - len(keep))
-        cases, recs = [c for c, _ in keep], [r for _, r in keep]
-        ck.validate(name, 'Trace_C02', cases, recs, step_len=lambda r: len(r['s']))
-        ck.count('stereo-atoms', sum(1 for r in recs for a in r['atoms'] if a['p'] != 2))
-        ck.count('stereo-bonds', sum(len(r['ct']) for r in recs))
-        ck.count('radical-texts', sum(1 for r in recs if r['cx']))
+        allc = cases
+        for lo in range(0, len(allc), 12000):   # one TLC run per batch: a trace file of 10^5 texts is too much for one JSON value
+            cases = allc[lo:lo + 12000]
+            recs = vlib.pmap('checks.c02', 'observe', cases)
+            keep = [(c, r) for c, r in zip(cases, recs) if 'skip' not in r]
+            ck.ood('unparsable-or-unkekulisable-source', len(cases) - len(keep))
+            cases, recs = [c for c, _ in keep], [r for _, r in keep]
+            ck.validate(name, 'Trace_C02', cases, recs, step_len=lambda r: len(r['s']))
+            ck.count('stereo-atoms', sum(1 for r in recs for a in r['atoms'] if a['p'] != 2))
+            ck.count('stereo-bonds', sum(len(r['ct']) for r in recs))
+            ck.count('radical-texts', sum(1 for r in recs if r['cx']))
     ck.assumptions += ['aromatic texts are compared after kekule()+thiele() of the molecule read back (hydrogens of aromatic heteroatoms are unknown before)',
                        'allene marks are not compared in this version (tetrahedral parity and double-bond same-side relations are)']
     return ck.finish(rule='one case = (molecule, form, style, random order); distinct by that tuple',
